@@ -149,7 +149,7 @@ func judge(level string, d Decl, q Req, e expect, o obs) (string, string) {
 			}
 			return "rejected-valid", what
 		}
-		if level == "handler" && o.Ran != 0 {
+		if handlerLevel(level) && o.Ran != 0 {
 			return "handler-ran-on-422", what
 		}
 		_, field := d.goType()
@@ -159,7 +159,7 @@ func judge(level string, d Decl, q Req, e expect, o obs) (string, string) {
 		return "", ""
 	}
 	// bound
-	if level == "handler" && o.Ran != 1 {
+	if handlerLevel(level) && o.Ran != 1 {
 		return fmt.Sprintf("handler-ran-%d-times", o.Ran), what
 	}
 	if e.accepts(o) {
